@@ -59,6 +59,25 @@ NA = {
 }
 PENDING = {}
 
+# what seeded-change waves 5-7 added to the worlds (DESIGN 14.2), appended to the level text
+ADDENDA = {
+ "C01": "; login names that merely resemble a registered one, refusing handlers of every error kind, CA clock skew, one RA process serving several requests",
+ "C02": "; old / boundary client versions, odd host spellings, the key_label option, handler objects reused for a second request",
+ "C03": "; CA clock skew and staggered validity windows, the key_label option, certificates the RA provisioned tracked by blob across runs",
+ "C04": "; refusing handlers of every error kind, failing agent keys at every placement",
+ "C06": "; signature length alterations, DER-consistent DigestInfo values with extra octets, device keys with public exponents 3 / 17 / 257 and 5120 / 8192-bit moduli, a look-alike CA, a genuine attestation preceding the judged one on the same Attestor",
+ "C07": "; security-key certificates, faults of the underlying agent on the purge path (a listing that succeeds under a fault discloses nothing), another shim instance before the judged history",
+ "C08": "; passphrase variants (line terminators, NUL, case), buffers overwritten after the call, out-of-band (un)locking of the underlying agent while the shim is locked",
+ "C09": "; KeyID documents in other JSON spellings and above 1 KiB, security-key certificates",
+ "C10": "; ordering comparators, slow but honest replies on the simulated clock, buffers overwritten after calls, and the rule that a fault which turns a successful answer into a failure cannot end in a successful call",
+ "C11": "; goroutines, callback timers and WaitGroups of the code under test are scheduler tasks too, read deadlines armed by the shim may expire, failure replies of the underlying agent, larger per-caller payloads, a scheduling point before a caller looks at its reply",
+ "C12": "; complete frames of 64 KiB .. 1 MiB (thorough: 16 MiB), a transport that reports the end of the stream with the last bytes",
+ "C13": "; smartcard add / remove, signing through client signers with the negotiated RSA algorithm, kept key objects compared again at the end of the session, a PIV tool whose output changes between calls",
+ "C17": "; endpoints that heal between Sign calls on one Signer, CA signature formats per certificate, unusual request shapes, a parent context that is already over",
+ "C18": "; chained client certificate files, a sibling TLS client configuration (built and used before the signer) with another CA bundle, impostors issued by that CA, by the client certificate's CA, or named as the first endpoint",
+ "C20": "; a sibling agent in the same process, real lock / unlock requests, goroutines and timers of the code under test as scheduler tasks",
+}
+
 def main():
     checks = []
     for pid, (level, ref, text, note, tech) in sorted(CHECKS.items()):
@@ -69,7 +88,7 @@ def main():
             "evidence_file": "/verif/evidence/%s.json" % pid,
             "replay_cmd_template": "./check %s --replay {path}" % pid,
             "engine": "detsim",
-            "level_claimed": {"category": level, "text": text, "design_ref": ref},
+            "level_claimed": {"category": level, "text": text + ADDENDA.get(pid, ""), "design_ref": ref},
             "level_note": note,
             "technique": tech,
         })
